@@ -140,7 +140,7 @@ def corpus_shards(tier):
 
 
 def shards(tier):
-    out = [dict(s, kind='sigma') for s in strings.shards(tier)]
+    out = [dict(s, kind='sigma') for s in strings.shards('quick' if tier == 'quick' else 'deep')]
     out += corpus_shards(tier)
     nk = len(strings.nest_kinds(gram.Names(seed())))
     for a in range(nk):
@@ -221,7 +221,7 @@ def coverage(tier, total):
                 'position of every L_wf document of the small layers and of tests/samples; 40-deep nests of 11 container '
                 'kinds (%s), closed and cut at every token boundary; each x tolerance 0/1.  distinct = distinct '
                 '(input, tolerance, outcome class)' % (
-                    ', '.join('%s n<=%d (%d symbols)' % (a, n, len(strings.sigma(a))) for a, n in strings.PLAN[tier]),
+                    ', '.join('%s n<=%d (%d symbols)' % (a, n, len(strings.sigma(a))) for a, n in strings.PLAN['quick' if tier == 'quick' else 'deep']),
                     len(strings.HOSTILE), 'all ordered pairs alternating; cut every 5th boundary' if tier == 'quick' else 'all ordered pairs alternating; cut at every boundary'),
         'sigma_strings': int(total.extra['sigma_strings']),
         'neighbours': int(total.extra['neighbours']),
